@@ -34,7 +34,7 @@ NP_RE = re.compile(r"""^\$(?:\[(?:0|[1-9][0-9]*)\]|\['(?:[\x20-\x26\x28-\x5b\x5d
 
 def plan(tier, seed):
     n = 15 if tier == "quick" else 46
-    return [{"kind": "w0"}, {"kind": "scale"}, {"kind": "threads", "rounds": 5 if tier == "quick" else 30}] + [{"n": 500 if tier == "quick" else 10000, "profile": ["unique", "mixed"][i % 2]} for i in range(n)]
+    return [{"kind": "w0"}, {"kind": "scale"}, {"kind": "recursion-limit", "limit": None}, {"kind": "recursion-limit", "limit": 320}, {"kind": "threads", "rounds": 5 if tier == "quick" else 30}] + [{"n": 500 if tier == "quick" else 10000, "profile": ["unique", "mixed"][i % 2]} for i in range(n)]
 
 
 def install():
@@ -278,8 +278,50 @@ def run_threads(ctx, rounds):
             return
 
 
+def run_recursion_limit(ctx, limit):
+    """Documents nested from half the interpreter's recursion limit up to beyond it (process default, and a lowered
+    limit).  A refusal (RecursionError) is the interpreter's; every match that IS reported must carry the location of the
+    node it holds: parts lead to it, the path is the normalized path of the parts, the pointer resolves to it."""
+    import sys
+
+    import jsonpath
+    from rt import deep
+
+    if limit:
+        sys.setrecursionlimit(limit)
+    lim = sys.getrecursionlimit()
+    for depth in sorted({lim // 4, lim // 2 - 6, lim // 2 + 6, lim // 2 + 40, (3 * lim) // 4, lim - 60, lim - 30, lim - 16, lim - 8, lim + 10, 2 * lim}):
+        for shape in ("mixed", "arrays", "objects"):
+            doc, _levels = deep.chain(depth, shape)
+            for text in ("$..[?@.id]", "$..[1]", "$..id", "$..x[0]"):
+                o = impl.call(lambda: list(jsonpath.finditer(text, doc)))
+                ctx.evaluation()
+                ctx.cell("recursion_limit_outcomes", "limit=%s depth=limit%+d %s" % ("default" if not limit else limit, depth - lim, "refused" if not o.ok else "answered"))
+                case = {"kind": "recursion-limit", "limit": limit, "depth": depth, "shape": shape, "text": text}
+                if not o.ok:
+                    if not isinstance(o.exc, RecursionError):
+                        ctx.violation("deep-document-raised:%s" % type(o.exc).__name__, case, {"error": o.desc()})
+                        return
+                    continue
+                ms = o.value
+                for m in ms[:40] + ms[-60:] + ms[len(ms) // 2 - 20: len(ms) // 2 + 20]:
+                    parts = tuple(m.parts)
+                    try:
+                        node = deep.walk(doc, parts)
+                    except Exception as e:  # noqa: BLE001
+                        node = e
+                    ptr = impl.call(lambda: m.pointer().resolve(doc))
+                    ctx.count("matches_checked")
+                    if (node is not m.obj and not (not isinstance(m.obj, (dict, list)) and node == m.obj)) or m.path != normalized_path(parts) or not ptr.ok or (ptr.value is not m.obj and ptr.value != m.obj):
+                        ctx.violation("match-location-wrong-on-a-document-nested-near-the-recursion-limit", case, {"text": text, "depth": depth, "recursion_limit": lim, "nesting_of_match": len(parts), "parts_tail": [repr(x) for x in parts[-4:]], "path_tail": m.path[-40:]})
+                        return
+
+
 def run(spec, ctx):
     install()
+    if spec.get("kind") == "recursion-limit":
+        run_recursion_limit(ctx, spec["limit"])
+        return
     if spec.get("kind") == "threads":
         run_threads(ctx, spec["rounds"])
         return
@@ -344,5 +386,8 @@ def replay(case, ctx):
         return
     if case.get("kind") == "threads":
         run_threads(ctx, 12)
+        return
+    if case.get("kind") == "recursion-limit":
+        run_recursion_limit(ctx, case.get("limit"))
         return
     check_case(ctx, case["text"], case["doc"], case.get("class", "replay"), exotic_seed=case.get("exotic_seed"))
